@@ -28,6 +28,30 @@ func (m *Model) RunKinds(s *Sink, rule string) {
 		return
 	}
 	fk := fnKey(fn)
+	// the conversion depends on the value, never on where it lives: no function on the conversion path asks reflect for
+	// an address (a memo keyed by Value.Pointer() makes two slices that share their first element one value)
+	nAddr := 0
+	for f := range m.Reach([]*ssa.Function{fn}) {
+		if f.Blocks == nil || !m.InModule(f) {
+			continue
+		}
+		for _, b := range f.Blocks {
+			for _, in := range b.Instrs {
+				c, ok := in.(*ssa.Call)
+				if !ok || c.Call.StaticCallee() == nil {
+					continue
+				}
+				switch fnFullName(c.Call.StaticCallee()) {
+				case "(reflect.Value).Pointer", "(reflect.Value).UnsafePointer", "(reflect.Value).UnsafeAddr", "(reflect.Value).Addr":
+					nAddr++
+					s.Violation(rule, fmt.Sprintf("%s|conversion asks for an address #%d", fnKey(f), nAddr), m.InstrPos(c), "%s calls %s on the conversion path of data: the result of converting a value must not depend on its address (slices of different length can share it, and caches keyed by it outlive the data)", fnKey(f), fnFullName(c.Call.StaticCallee()))
+				}
+			}
+		}
+	}
+	if nAddr == 0 {
+		s.OK(rule, fk+"|conversion is by value", m.Pos(fn.Pos()), "no reflect address accessor (Pointer, UnsafePointer, UnsafeAddr, Addr) is reachable from NativeToObject")
+	}
 	par := fn.Params[0]
 	gotTypes := map[string]string{}
 	gotKinds := map[int64]bool{}
